@@ -529,3 +529,24 @@ def shrink(ctx, case):
         return case
     import props.C06 as me
     return L.shrink_msg(ctx, me, case, judge)
+
+
+# ---- T1X: the numerals of this property's models are tied to the current tree.  extract/consts2*.c + a source scan
+# rewrite lean/CoapVerif/Generated/Consts2.lean on every check; Props/C06Consts.lean proves `<model numeral> =
+# Generated.C2.<name>` (design/T1.md).  A changed macro / struct size / literal breaks one of these named obligations.
+LEAN_MODULES = list(LEAN_MODULES) + ["CoapVerif.Props.C06Consts"]
+REQUIRED_THEOREMS = list(REQUIRED_THEOREMS) + [
+    "qfix_matches_code",
+    "calcTimeout_shifts_matches_code",
+    "qfix_defaults_matches_code",
+    "calcTimeout_matches_code",
+    "sess_defaults_matches_code",
+    "ticks_to_ms_matches_code",
+]
+TRUSTED_BASE = list(TRUSTED_BASE) + ["T1 extractors extract/consts2.c, consts2_net.c, consts2_opt.c and the source scan vlib/tables.py scan_consts2 (Generated/Consts2.lean)"]
+_t1x_prev_extract = globals().get("extract")
+
+
+def extract(ctx):
+    from vlib import tables
+    return (_t1x_prev_extract(ctx) if _t1x_prev_extract else []) + tables.extract_consts2()
